@@ -165,6 +165,9 @@ pub struct SimTransport {
     pub sh: Arc<Shared>,
     pub call: u32,
     pub plan: Arc<Mutex<CallPlan>>,
+    /// measuring mode: only the length of the request URI is noted, nothing is sent and the call
+    /// fails (used to aim a later call's URI at the longest length `http::Uri` can hold)
+    pub measure: Option<Arc<Mutex<Option<usize>>>>,
 }
 
 impl std::fmt::Debug for SimTransport {
@@ -439,6 +442,10 @@ impl Client for SimTransport {
     type ResponseBody = SimBody;
 
     fn send(&self, req: Request<RequestBody<'_, SimWriter>>) -> Result<Response<SimBody>, Error> {
+        if let Some(m) = &self.measure {
+            *m.lock().unwrap() = Some(req.uri().to_string().len());
+            return Err(Error::internal_safe("measured"));
+        }
         crate::ctx::seam();
         let ctx = &self.sh.ctx;
         ctx.mark(0x1000 + self.call as u64);
@@ -600,6 +607,10 @@ impl AsyncClient for SimTransport {
         req: Request<AsyncRequestBody<'_, SimAsyncWriter>>,
     ) -> impl Future<Output = Result<Response<SimBody>, Error>> + Send {
         async move {
+            if let Some(m) = &self.measure {
+                *m.lock().unwrap() = Some(req.uri().to_string().len());
+                return Err(Error::internal_safe("measured"));
+            }
             let ctx = &self.sh.ctx;
             ctx.mark(0x1000 + self.call as u64);
             let (mut sent, client_ep) = self.capture_head(&req);
